@@ -83,13 +83,13 @@ struct JSON {
 
             ValueT value{ValueType::Object};
 
-            if (content[offset] != JSONotation::ECurlyChar) {
+            if ((offset >= length) || (content[offset] != JSONotation::ECurlyChar)) {
                 ObjectT *obj = value.GetObject();
 
                 while (offset < length && (content[offset] == JSONotation::QuoteChar)) {
                     ++offset;
                     const Char_T *str = (content + offset);
-                    SizeT         len = JSONUtils::UnEscape(str, length, stream);
+                    SizeT         len = JSONUtils::UnEscape(str, (length - offset), stream);
 
                     if (len != 0) {
                         offset += len;
@@ -103,7 +103,7 @@ struct JSON {
 
                         StringUtils::TrimLeft(content, offset, length);
 
-                        if (content[offset] == JSONotation::ColonChar) {
+                        if ((offset < length) && (content[offset] == JSONotation::ColonChar)) {
                             ++offset;
                             StringUtils::TrimLeft(content, offset, length);
                             String<Char_T> key{str, len};
@@ -142,7 +142,7 @@ struct JSON {
 
             ValueT value{ValueType::Array};
 
-            if (content[offset] != JSONotation::ESquareChar) {
+            if ((offset >= length) || (content[offset] != JSONotation::ESquareChar)) {
                 Array<ValueT> *arr = value.GetArray();
 
                 while (offset < length) {
@@ -175,6 +175,11 @@ struct JSON {
         }
 
         static ValueT parseValue(Stream_T &stream, const Char_T *content, SizeT &offset, const SizeT length) {
+            if (offset >= length) {
+                offset = length;
+                return ValueT{};
+            }
+
             switch (content[offset]) {
                 case JSONotation::SCurlyChar: {
                     ++offset;
